@@ -57,6 +57,18 @@ Seqs == {"0", "1", "-1", "9223372036854775807", "-9223372036854775808"}
 Nodes == {"none", "nodes:0", "nodes:1", "nodes:2", "nodes:20", "nodes:50"}
 Salts == {"none", "salt:0", "salt:1", "salt:64", "salt:65"}
 
+\* one-dimensional sweeps: every length / count in a range (with everything else standard), because a codec can go wrong at
+\* one particular size only (a count whose byte length is also a multiple of another record size, a length limit, ...)
+Lab(p, S) == {p \o ToString(n) : n \in S}
+NodesSweep == Lab("nodes:", 0..80)
+ValuesSweep == Lab("values:", 0..64)
+SpeersSweep == Lab("speers:", 0..24)
+ToksSweep == Lab("tok:", 0..40)
+ValsSweep == Lab("v:", (0..40) \cup (990..1010))
+SaltsSweep == Lab("salt:", 0..70)
+TextsSweep == Lab("text:a", (1..300) \cup {511, 512, 513, 1000}) \cup Lab("text:u", (1..300) \cup {511, 512, 513, 1000})
+                \cup Lab("text:w", 2..140)
+
 Env0 == [tid |-> "t:1", ver |-> "RS06", ip |-> "none", ro |-> FALSE]
 WithEnv(S) == {e @@ x : e \in {Env0}, x \in S}
 Envelopes == [tid : Tids, ver : {"none", "RS06"}, ip : {"none", "ip:a"}, ro : BOOLEAN]
@@ -87,8 +99,26 @@ Responses0 ==
   \cup {[kind |-> "r_no_more_recent", id |-> "id:a", token |-> t, nodes |-> n, seq |-> s] : t \in {"tok:4", "tok:0"}, n \in Nodes, s \in Seqs}
 Errors0 == {[kind |-> "error", code |-> c, text |-> x] : c \in {"201", "203", "-1", "2147483647", "-2147483648"},
                                                          x \in {"text:empty", "text:generic", "text:utf8"}}
+Sweeps ==
+       {[kind |-> "r_find_node", id |-> "id:a", nodes |-> n] : n \in NodesSweep}
+  \cup {[kind |-> k, id |-> "id:a", token |-> "tok:4", nodes |-> n] : k \in {"r_no_values"}, n \in NodesSweep}
+  \cup {[kind |-> "r_get_immutable", id |-> "id:a", token |-> "tok:4", nodes |-> n, v |-> "v:1"] : n \in NodesSweep}
+  \cup {[kind |-> "r_get_mutable", id |-> "id:a", token |-> "tok:4", nodes |-> n, v |-> "v:1", k |-> "k:1", sig |-> "sig:1", seq |-> "1"] : n \in NodesSweep}
+  \cup {[kind |-> "r_no_more_recent", id |-> "id:a", token |-> "tok:4", nodes |-> n, seq |-> "1"] : n \in NodesSweep}
+  \cup {[kind |-> "r_get_peers", id |-> "id:a", token |-> "tok:4", nodes |-> n, values |-> "values:1"] : n \in NodesSweep}
+  \cup {[kind |-> "r_get_signed_peers", id |-> "id:a", token |-> "tok:4", nodes |-> n, values |-> "speers:1"] : n \in NodesSweep}
+  \cup {[kind |-> "r_get_peers", id |-> "id:a", token |-> "tok:4", nodes |-> n, values |-> v] : n \in {"none", "nodes:2"}, v \in ValuesSweep}
+  \cup {[kind |-> "r_get_signed_peers", id |-> "id:a", token |-> "tok:4", nodes |-> n, values |-> v] : n \in {"none", "nodes:2"}, v \in SpeersSweep}
+  \cup {[kind |-> "r_no_values", id |-> "id:a", token |-> t, nodes |-> "nodes:2"] : t \in ToksSweep}
+  \cup {[kind |-> "put_immutable", id |-> "id:a", target |-> "id:ff", token |-> t, v |-> "v:1"] : t \in ToksSweep}
+  \cup {[kind |-> "announce_peer", id |-> "id:a", target |-> "id:zero", token |-> t, port |-> "1", implied |-> "none"] : t \in ToksSweep}
+  \cup {[kind |-> "put_immutable", id |-> "id:a", target |-> "id:ff", token |-> "tok:4", v |-> v] : v \in ValsSweep}
+  \cup {[kind |-> "r_get_immutable", id |-> "id:a", token |-> "tok:4", nodes |-> "none", v |-> v] : v \in ValsSweep}
+  \cup {[kind |-> "put_mutable", id |-> "id:a", target |-> "id:ff", token |-> "tok:4", v |-> v, k |-> "k:1", sig |-> "sig:1",
+         seq |-> "1", cas |-> "none", salt |-> sl] : v \in {"v:1"}, sl \in SaltsSweep}
+  \cup {[kind |-> "error", code |-> "203", text |-> x] : x \in TextsSweep}
 \* every kind-specific combination with the standard envelope, plus every envelope with one message of each kind
 Rep(S) == {CHOOSE x \in {y \in S : y.kind = k} : TRUE : k \in {z.kind : z \in S}}
-Messages == WithEnv(Requests0 \cup Responses0 \cup Errors0)
+Messages == WithEnv(Requests0 \cup Responses0 \cup Errors0 \cup Sweeps)
             \cup {e @@ x : e \in Envelopes, x \in Rep(Requests0 \cup Responses0 \cup Errors0)}
 =============================================================================
